@@ -48,7 +48,9 @@ Inductive xcop :=
 | XKWChangeAdmin (ct d na : Z)
 | XKWSetMeta (ct d base : Z) (valid : bool) (tag : Z)
 | XKParams (auth creator : Z) (newfee : list (Z * Z)) (valid : bool)
-| XKGenesis.
+| XKGenesis
+| XKTx (g : list (Z * Z)) (msgs : list tcop)   (* a whole transaction; g: fee grants (granter id, grantee id) *)
+with tcop := TM (k : cop) (signers : list Z).  (* message cop + Metadata.Signers (string indices) *)
 
 (** extra observations: params as read back, GetDenomsFromCreator (as a set), community pool *)
 Inductive eobs :=
@@ -90,7 +92,7 @@ Definition err_code (e : err) : Z :=
   match e with
   | EValidate => 1 | ENotExist => 2 | EUnauthorized => 3 | EInvalidDenom => 4 | EExists => 5
   | EHasSupply => 6 | ENaming => 7 | EFunds => 8 | EBlocked => 9 | EAddr => 10 | EMeta => 11
-  | EPanic => 12 | EBadReq => 13
+  | EPanic => 12 | EBadReq => 13 | EAnte => 14
   end.
 
 Definition to_op (strs : list string) (k : cop) : op :=
@@ -176,6 +178,23 @@ Definition to_xop (strs : list string) (k : xcop) : option xop :=
   | XKWSetMeta ct d b v t => Some (XWasm ct (WSetMeta (S d) (S b) v t))
   | XKParams a cr f v => Some (XParams (S a) (S cr) (coins_at strs f) v)
   | XKGenesis => Some XGenesis
+  | XKTx _ _ => None
+  end.
+
+Fixpoint to_tx (strs : list string) (l : list tcop) : option (list tmsg) :=
+  match l with
+  | [] => Some []
+  | TM k sg :: r =>
+    match to_msg strs k, to_tx strs r with
+    | Some m, Some t => Some ((m, map (str_at strs) sg) :: t)
+    | _, _ => None
+    end
+  end.
+
+Definition to_top (strs : list string) (k : xcop) : option top :=
+  match k with
+  | XKTx g l => match to_tx strs l with Some t => Some (TTx g t) | None => None end
+  | _ => match to_xop strs k with Some o => Some (TOp o) | None => None end
   end.
 
 Fixpoint coins_eqb (a b : list (denom * Z)) : bool :=
@@ -213,10 +232,10 @@ Fixpoint run_xsteps (c : cfg) (str_of : acct -> string) (authority : string) (st
   match l with
   | [] => Some xs
   | XStep k code nd obs ext :: r =>
-    match to_xop strs k with
+    match to_top strs k with
     | None => None
     | Some o =>
-      let '(xs', out) := xstep_out c str_of authority xs o in
+      let '(xs', out) := tstep_out c str_of authority xs o in
       let ok_out :=
         match out with
         | Ok d => (code =? 0) &&
